@@ -22,7 +22,9 @@ EXTENDS Integers, Sequences, FiniteSets, TLC, VerifIO
 CONSTANTS Ids,       \* identities = keys; "P" is the advertisement's provider
           Signers,   \* who may sign the advertisement (provider or a separate publisher)
           MaxEps, FIXED, EXPORT,
-          SLIM       \* TRUE: only lists of exactly MaxEps extended providers on one fixed ad body (the pairs, cheaply)
+          SLIM,      \* TRUE: only lists of exactly MaxEps extended providers on one fixed ad body (the pairs, cheaply)
+          Texts      \* names that are NO identities (strings that are not peer IDs): they may stand where a provider is named -- the
+                     \* advertisement's provider, an entry's ID -- but no key belongs to them ({}: none)
 Prov == "P"
 Other == "Z"          \* an identity that never appears honestly (attacker / replacement value)
 
@@ -31,15 +33,15 @@ vars == <<shape, signer, epk, mut, stage>>
 
 (* ---- value space ---- *)
 AddrSeqs == {<<>>, <<"a1">>, <<"a1", "a2">>}
-EpEntries == [id : Ids, addrs : {<<>>, <<"a1">>}, md : {"m1"}]
-EpSeqs == IF SLIM THEN [1..MaxEps -> [id : Ids, addrs : {<<>>}, md : {"m1"}]] ELSE UNION {[1..n -> EpEntries] : n \in 0..MaxEps}
+EpEntries == [id : Ids \cup Texts, addrs : {<<>>, <<"a1">>}, md : {"m1"}]
+EpSeqs == IF SLIM THEN [1..MaxEps -> [id : Ids \cup Texts, addrs : {<<>>}, md : {"m1"}]] ELSE UNION {[1..n -> EpEntries] : n \in 0..MaxEps}
 (* fmt: the form of the advertisement's own signature payload -- "current" (the hash of the signed values) or "old" (the
    deprecated form VerifySignature still accepts: the values themselves under a multihash header); whichever it is, everything
    else is verified the same way                                                                                           *)
 Shapes == IF SLIM
-          THEN [prev : {"A"}, ents : {"E1"}, prov : {Prov}, addrs : {<<>>}, md : {"m1"}, rm : BOOLEAN,
+          THEN [prev : {"A"}, ents : {"E1"}, prov : {Prov} \cup Texts, addrs : {<<>>}, md : {"m1"}, rm : BOOLEAN,
                 hasExt : {TRUE}, ctx : {"c1"}, ov : BOOLEAN, eps : EpSeqs \cup {<<>>}, fmt : {"current", "old"}]
-          ELSE [prev : {"none", "A"}, ents : {"noents", "E1"}, prov : {Prov}, addrs : AddrSeqs, md : {"m1"}, rm : BOOLEAN,
+          ELSE [prev : {"none", "A"}, ents : {"noents", "E1"}, prov : {Prov} \cup Texts, addrs : AddrSeqs, md : {"m1"}, rm : BOOLEAN,
                 hasExt : BOOLEAN, ctx : {"c0", "c1"}, ov : BOOLEAN, eps : EpSeqs, fmt : {"current"}]      \* "c0" = empty context ID
 (* A removal with extended providers: SignWithExtendedProviders refuses to make one, but the advertisement signature does not
    cover the list, so entries (signed while it was not a removal) can be attached to a removal signed with Sign.               *)
